@@ -16,13 +16,18 @@ CONSTANT MaxTokens
 Tokens == {"1", ".", "..", "/", "a", "bs", "sib"}
 Fields == {"SOPInstanceUID", "Modality", "PatientID", "StudyInstanceUID", "SeriesInstanceUID"}
 SopKinds == {"prefixed", "unprefixed"}       \* a storage SOP class the apps know a file-name prefix for (CT) / one they do not (DX)
-VARIABLES uid, field, sop
+\* what the application's own state says about the instance before the request (qrscp's database; storescp has none):
+\* "new" - not managed yet;  "elsewhere" - already managed, its file recorded at a path outside the storage directory now
+\* configured (indexed in place from another archive, or stored before the storage directory was changed)
+Known == {"new", "elsewhere"}
+VARIABLES uid, field, sop, known
 UidOpts == UNION {[1..n -> Tokens] : n \in 1..MaxTokens} \cup {<<"ABS">> \o t : t \in UNION {[1..n -> Tokens] : n \in 1..(MaxTokens - 1)}}
 Hostile(u) == \E k \in 1..Len(u) : u[k] \in {"/", "..", "ABS", "bs", "sib"}
-Init == /\ uid \in UidOpts /\ field \in Fields /\ sop \in SopKinds
+Init == /\ uid \in UidOpts /\ field \in Fields /\ sop \in SopKinds /\ known \in Known
         /\ (field # "SOPInstanceUID" => Hostile(uid))        \* (harmless values in the other attributes are of no interest)
-Next == FALSE /\ UNCHANGED <<uid, field, sop>>
-Spec == Init /\ [][Next]_<<uid, field, sop>>
+        /\ (known = "elsewhere" => (field = "SOPInstanceUID" /\ Len(uid) <= 2))   \* (the pre-state is about the instance named by the request)
+Next == FALSE /\ UNCHANGED <<uid, field, sop, known>>
+Spec == Init /\ [][Next]_<<uid, field, sop, known>>
 
 \* ---- path resolution (shared with Trace_StorePath) ----
 \* comps: sequence of path components relative to a root; Resolve drops "." and applies ".."
@@ -36,5 +41,5 @@ IsPrefix(p, q) == Len(p) <= Len(q) /\ SubSeq(q, 1, Len(p)) = p
 \* file (components from the sandbox root) lies strictly inside dir (components from the sandbox root)
 Inside(dir, file) == LET f == Resolve(<<>>, file) IN IsPrefix(dir, f) /\ Len(f) > Len(dir)
 C30_InsideP(dir, db, touched) == \A k \in 1..Len(touched) : Inside(dir, touched[k]) \/ Resolve(<<>>, touched[k]) = db
-Export == PrintT(<<"CASE", uid, field, sop>>)
+Export == PrintT(<<"CASE", uid, field, sop, known>>)
 =============================================================================
